@@ -9,14 +9,14 @@ EXPLANATION = (
     "R04.2: the writer's label->symbol map (both copies) and the parser's symbol->label map are inverse bijections on "
     "{WordBoundary, NotWordBoundary, Unknown}. R04.3: the text-character position is literal on both sides."
 )
+THOROUGH_CONFIGS = [C.MINIMAL, C.NO_TAG]
 NOT_DECIDED = ["equality after re-parse as a value"]
 
 WP = C.S + "::write_partial_annotation_text"
 
 
 def run(chk):
-    w = facts.world("W")
-    chk.configs.add("W")
+    w = C.world_for(chk)
     chk.rule("R04.1", "annotation-context specials of the parser are escaped by every tag-emitting site of the writer")
     chk.rule("R04.2", "label<->symbol tables are inverse bijections and both writer copies agree")
     chk.rule("R04.3", "text characters are literal in parser and writer")
